@@ -1,4 +1,5 @@
 import BoltonsVerif.C17.Model
+import BoltonsVerif.C17.Heap
 /-
 C17 - round 3: OneToOne call ARGUMENTS as the caller built them.
 
@@ -81,4 +82,97 @@ def otoRunA (st : OtoSt α) : List (OtoCmdA α) → Option (OtoSt α)
     | none => none
 
 end args
+end C17
+
+/-! ## ManyToMany, caller level
+
+  ManyToMany(items)      `if items: self.update(items)` - an empty list / dict is skipped, an iterator object is always
+                         true; either way the instance ends up holding what one pass over `items` yields
+  update(iterable)       another ManyToMany: the two-loop merge (`M2MCmd.updateFrom`); a mapping (anything with
+                         `keys()`): `for k in m.keys(): self.add(k, m[k])` - a key once, with its last value;
+                         else `for key, val in iterable: self.add(key, val)` - ONE lazy pass
+The lowering does not look at the instances, only at the iterator store, so the by-value machine (`Model.lean`) and
+the heap-level machine (`Heap.lean`) are driven by the same lowered commands. -/
+namespace C17
+
+/-- a caller-level ManyToMany command (`Arg.reg` = another ManyToMany, either side) -/
+inductive M2MCmdA (α : Type) where
+  | mkIter (ps : List (α × α))
+  | next (i : Nat)
+  | new (a : Arg α)                                  -- `ManyToMany(arg)`
+  | op (r : Nat) (side : Bool) (op : M2MOp α)        -- add / remove / __setitem__ / __delitem__ / replace
+  | update (r : Nat) (side : Bool) (a : Arg α)       -- `x.update(arg)`
+deriving Repr
+
+section argsm
+variable {α : Type} [DecidableEq α]
+
+/-- the ONE pass over a non-instance argument: its pairs and the iterator store afterwards (`none` for `Arg.reg`) -/
+def takePairs (its : List (List (α × α))) : Arg α → Option (List (α × α) × List (List (α × α)))
+  | .none => some ([], its)
+  | .dict raw => some (putAll [] raw, its)
+  | .pairs ps => some (ps, its)
+  | .freshIter ps => some (ps, its)
+  | .iter i => (its[i]?).map fun rest => (rest, its.set i [])
+  | .reg _ _ => none
+
+/-- the command of `Model.lean` / `Heap.lean` a caller-level command amounts to (`none` inside: no instance is
+    touched), and the iterator store afterwards -/
+def lowerM (its : List (List (α × α))) : M2MCmdA α → Option (Option (M2MCmd α) × List (List (α × α)))
+  | .mkIter ps => some (none, its ++ [ps])
+  | .next i => (its[i]?).map fun rest => (none, its.set i rest.tail)
+  | .new (.reg r side) => some (some (.newFrom r side), its)
+  | .new a => (takePairs its a).map fun p => (some (.new p.1), p.2)
+  | .op r side op => some (some (.op r side op), its)
+  | .update r side (.reg r2 side2) => some (some (.updateFrom r side r2 side2), its)
+  | .update r side a => (takePairs its a).map fun p => (some (.op r side (.update p.1)), p.2)
+
+/-- a whole caller-level history lowered (a function of the iterator store alone) -/
+def lowerAll (its : List (List (α × α))) : List (M2MCmdA α) → Option (List (M2MCmd α) × List (List (α × α)))
+  | [] => some ([], its)
+  | c :: cs => match lowerM its c with
+    | some (oc, its1) => (lowerAll its1 cs).map fun p => ((match oc with | some c' => c' :: p.1 | none => p.1), p.2)
+    | none => none
+
+structure M2MSt (α : Type) where
+  regs : List (M2M α)
+  iters : List (List (α × α))
+deriving Repr, DecidableEq
+
+def M2MSt.empty : M2MSt α := ⟨[], []⟩
+
+/-- one caller-level command on the by-value machine -/
+def m2mCmdA (st : M2MSt α) (c : M2MCmdA α) : Option (M2MSt α × Ret α) :=
+  match lowerM st.iters c with
+  | some (some c', its) => (m2mCmd st.regs c').map fun p => (⟨p.1, its⟩, p.2)
+  | some (none, its) => some (⟨st.regs, its⟩, .none)
+  | none => none
+
+def m2mRunA (st : M2MSt α) : List (M2MCmdA α) → Option (M2MSt α)
+  | [] => some st
+  | c :: cs => match m2mCmdA st c with
+    | some (st', _) => m2mRunA st' cs
+    | none => none
+
+/-- the heap-level machine (`Heap.lean`: set objects with identities) driven by the same lowered commands -/
+structure HM2MSt (α : Type) where
+  st : HState α
+  iters : List (List (α × α))
+deriving Repr, DecidableEq
+
+def HM2MSt.empty : HM2MSt α := ⟨HState.empty, []⟩
+
+def hm2mCmdA (s : HM2MSt α) (c : M2MCmdA α) : Option (HM2MSt α × Ret α) :=
+  match lowerM s.iters c with
+  | some (some c', its) => (hm2mCmd s.st c').map fun p => (⟨p.1, its⟩, p.2)
+  | some (none, its) => some (⟨s.st, its⟩, .none)
+  | none => none
+
+def hm2mRunA (s : HM2MSt α) : List (M2MCmdA α) → Option (HM2MSt α)
+  | [] => some s
+  | c :: cs => match hm2mCmdA s c with
+    | some (s', _) => hm2mRunA s' cs
+    | none => none
+
+end argsm
 end C17
